@@ -3,6 +3,10 @@ package main
 import (
 	"encoding/json"
 	"fmt"
+	"io/ioutil"
+	"os"
+	"os/exec"
+	"path/filepath"
 	"time"
 
 	"github.com/VolantMQ/vlapi/mqttp"
@@ -40,6 +44,8 @@ type c03Case struct {
 	Wrap int `json:"wrap,omitempty"`
 	// Bulk > 0: that many QoS 1 messages for the OFFLINE durable session, then a reconnect that acknowledges everything
 	Bulk int `json:"bulk,omitempty"`
+	// AckOrder: run the verif hook of package connection (the identifier freed by an acknowledgement is reused at once)
+	AckOrder bool `json:"ackorder,omitempty"`
 }
 
 type c03Wire struct {
@@ -56,13 +62,75 @@ type c03Step struct {
 }
 
 type c03Obs struct {
-	Steps []c03Step `json:"steps"`
-	Items [][2]int  `json:"items,omitempty"` // wrap: [a,b] = run a..b, [id,-1] = id issued and never acknowledged
-	Got   int       `json:"got,omitempty"`   // bulk: distinct messages received after the reconnect
-	Err   string    `json:"err,omitempty"`
+	Steps []c03Step    `json:"steps"`
+	Items [][2]int     `json:"items,omitempty"` // wrap: [a,b] = run a..b, [id,-1] = id issued and never acknowledged
+	Got   int          `json:"got,omitempty"`   // bulk: distinct messages received after the reconnect
+	Ack   *ackOrderObs `json:"ack,omitempty"`
+	Err   string       `json:"err,omitempty"`
 }
 
-type c03Prop struct{ id string }
+type c03Prop struct {
+	id      string
+	hookBin string
+}
+
+type ackOrderObs struct {
+	SameID   bool `json:"sameId"`
+	Kept     bool `json:"kept"`
+	Released bool `json:"released"`
+	Quota    int  `json:"quota"`
+}
+
+// the verif hook of package connection is a test binary built once per run
+func (p *c03Prop) Setup(tier string) error {
+	dir, err := ioutil.TempDir("", "c03hook")
+	if err != nil {
+		return err
+	}
+	p.hookBin = filepath.Join(dir, "conntest")
+	cmd := exec.Command("go", "test", "-mod=mod", "-vet=off", "-c", "-tags", "verif", "-o", p.hookBin, "./connection")
+	cmd.Dir = "/repo"
+	if out, err := cmd.CombinedOutput(); err != nil {
+		p.hookBin = ""
+		fmt.Fprintln(os.Stderr, "C03: the verif hook of package connection does not build:", string(out))
+	}
+	return nil
+}
+
+func (p *c03Prop) Teardown() {
+	if p.hookBin != "" {
+		os.RemoveAll(filepath.Dir(p.hookBin))
+	}
+}
+
+func (p *c03Prop) runAckOrder() *c03Obs {
+	obs := &c03Obs{Steps: []c03Step{}}
+	if p.hookBin == "" {
+		obs.Err = "the verif hook of package connection is not available"
+		return obs
+	}
+	f, err := ioutil.TempFile("", "ackobs")
+	if err != nil {
+		obs.Err = err.Error()
+		return obs
+	}
+	f.Close()
+	defer os.Remove(f.Name())
+	cmd := exec.Command(p.hookBin, "-test.run", "TestVerifAckRelease")
+	cmd.Env = append(os.Environ(), "VERIF_ACK_OUT="+f.Name())
+	if o, err := cmd.CombinedOutput(); err != nil {
+		obs.Err = "hook run: " + err.Error() + ": " + string(o)
+		return obs
+	}
+	raw, err := ioutil.ReadFile(f.Name())
+	a := &ackOrderObs{}
+	if err != nil || json.Unmarshal(raw, a) != nil {
+		obs.Err = "hook output"
+		return obs
+	}
+	obs.Ack = a
+	return obs
+}
 
 func init() {
 	props["C03"] = &c03Prop{id: "C03"}
@@ -318,6 +386,9 @@ func tailInts(l []int, k int) []int {
 
 func (p *c03Prop) Run(ci interface{}) interface{} {
 	c := ci.(*c03Case)
+	if c.AckOrder {
+		return p.runAckOrder()
+	}
 	if c.Wrap > 0 || c.Bulk > 0 {
 		return p.runLong(c)
 	}
@@ -739,6 +810,10 @@ func (p *c03Prop) Coq(ci interface{}, oi interface{}) string {
 		extra = fmt.Sprintf("(Some (XWrap %s))", cList(it))
 	} else if c.Bulk > 0 {
 		extra = fmt.Sprintf("(Some (XBulk %d%%Z %d%%Z))", c.Bulk, o.Got)
+	} else if c.AckOrder && o.Ack != nil {
+		extra = fmt.Sprintf("(Some (XAckOrder %s %s %s %d%%Z))", cBool(o.Ack.SameID), cBool(o.Ack.Kept), cBool(o.Ack.Released), o.Ack.Quota)
+	} else if c.AckOrder {
+		extra = "(Some (XAckOrder false false false 0%Z))"
 	}
 	return fmt.Sprintf("(mkCase %d%%Z false %s %s %s)", rm, cList(steps), cBool(o.Err == ""), extra)
 }
@@ -750,6 +825,9 @@ func (p *c03Prop) Class(ci interface{}, oi interface{}) (string, bool) {
 	}
 	if c.Bulk > 0 {
 		return "bulk-offline-backlog", true
+	}
+	if c.AckOrder {
+		return "ack-frees-identifier-reused-at-once (hook)", true
 	}
 	rec, exp, late := false, false, false
 	for _, op := range c.Ops {
